@@ -59,7 +59,7 @@ package builder
 //@   guard-call wideonly: "AddString|AddBytes|AddUInt32|AddOwnSizeFirst" false
 //@   guard-call strs: "AddWString" nf(arg(0)) < 12 ==> ((nf(arg(0)) == 4 && arg(1) == injStr(b, "Spawn64")) || (nf(arg(0)) == 5 && arg(1) == injStr(b, "Spawn32")))
 //@   guard-call wide: "AddInt64" (isHttp(b) ==> (nf(arg(0)) == 12 && arg(1) == lh(b).Config.KillDate)) && (isSmb(b) ==> (nf(arg(0)) == 13 && arg(1) == ls(b).Config.KillDate)) && (isHttp(b) || isSmb(b))
-//@   guard-call hours: "AddInt32" arg(1) == WorkingHours && (isHttp(b) ==> nf(arg(0)) == 13) && (isSmb(b) ==> nf(arg(0)) == 14) && (isHttp(b) || isSmb(b))
+//@   guard-call hours: "AddInt32" err == nil && arg(1) == WorkingHours && (isHttp(b) ==> nf(arg(0)) == 13) && (isSmb(b) ==> nf(arg(0)) == 14) && (isHttp(b) || isSmb(b))
 //@   guard-call hourssrc: "ParseWorkingHours" arg(0) == ite(isHttp(b), lh(b).Config.WorkingHours, ls(b).Config.WorkingHours)
 //@   guard-call lints: "AddInt" nf(arg(0)) >= 12 ==> (isHttp(b) && ((nf(arg(0)) == 15 && arg(1) == ite(lh(b).Config.HostRotation == "round-robin", 0, 1)) || (nf(arg(0)) == 16 && arg(1) == nHosts(b)) || exists(i, 0, nHosts(b), nf(arg(0)) == 18 + 2*i && arg(1) == hostPort(b, lh(b).Config.Hosts[i])) || (nf(arg(0)) == posA(b) && arg(1) == flag(lh(b).Config.Secure)) || (nf(arg(0)) == posA(b) + 2 && arg(1) == nHdrs(b)) || (nf(arg(0)) == posB(b) && arg(1) == nUris(b)) || (nf(arg(0)) == posC(b) && arg(1) == flag(lh(b).Config.Proxy.Enabled))))
 //@   guard-call lstrs: "AddWString" nf(arg(0)) >= 12 ==> ((isSmb(b) && nf(arg(0)) == 12 && arg(1) == "\\\\.\\pipe\\" + ls(b).Config.PipeName) || (isHttp(b) && ((nf(arg(0)) == 14 && arg(1) == "POST") || exists(i, 0, nHosts(b), nf(arg(0)) == 17 + 2*i && arg(1) == hostName(lh(b).Config.Hosts[i])) || (nf(arg(0)) == posA(b) + 1 && arg(1) == lh(b).Config.UserAgent) || exists(j, 0, nHdrs(b), nf(arg(0)) == posA(b) + 3 + j && ((len(lh(b).Config.Headers) == 0 && arg(1) == hdrItem(b, j)) || (inscope("Headers") && len(lh(b).Config.Headers) > 0 && arg(1) == Headers[j] && (hostHdr(b) || sameslice(Headers, lh(b).Config.Headers))))) || exists(j, 0, nUris(b), nf(arg(0)) == posB(b) + 1 + j && arg(1) == uriItem(b, j)) || (lh(b).Config.Proxy.Enabled && (nf(arg(0)) == posC(b) + 1 || (nf(arg(0)) == posC(b) + 2 && arg(1) == lh(b).Config.Proxy.Username) || (nf(arg(0)) == posC(b) + 3 && arg(1) == lh(b).Config.Proxy.Password))))))
